@@ -44,3 +44,18 @@ def whole_view(sterm, seqname):
     """stream term of a forward iteration over the whole vector"""
     S = ('seq', seqname)
     return sterm == ('stream', 'src', ('view', S, ('ic', 0), ('len', S)), ('str', 'ref'))
+
+
+def search_domain(it, s):
+    """the part of the underlying sequence a search stream ranges over, whatever adaptors produced it:
+    -> (root, path, lo, hi) for src / enumerate / skip chains over one slice view, else None"""
+    from ..values import Stream, SliceRef
+    skip = ('ic', 0)
+    while isinstance(s, Stream) and s.kind in ('enumerate', 'skip', 'cloned'):
+        if s.kind == 'skip':
+            skip = it.iadd(skip, s.parts[1])
+        s = s.parts[0]
+    if isinstance(s, Stream) and s.kind == 'src' and isinstance(s.parts[0], SliceRef):
+        sl = s.parts[0]
+        return sl.root, sl.path, it.iadd(sl.start, skip), sl.end
+    return None
